@@ -18,7 +18,7 @@ EXPLANATION = (
     "routes the fc and landa_D specifications give equal forms for L, dneff and the coupling terms under landa_D = c/fc, L from kL "
     "inverts the later kL recomputation, and L from N is N*landa_D/(2*neff). C16.4: FBG is interpreted (up to the solve_ivp call) for all 128 truthiness classes of (fc, landa_D, dneff, "
     "vdneff, kL, L, N) - the parameters are only tested for truth: every incomplete specification has no constructing path and ends in "
-    "ValueError, every complete one constructs without arithmetic on a parameter that was not given; a non-optical input raises TypeError. Not decided: agreement with "
+    "ValueError, every complete one constructs without arithmetic on a parameter that was not given. Not decided: agreement with "
     "tanh^2/sinh^2 closed forms and solver tolerance (numerical integration).")
 TRUSTED = ["scipy.integrate.solve_ivp integrates the given system", "conservation of |R|^2-|S|^2 for a system of that matrix shape (mathematics)", "C02.3 typestate"]
 
@@ -217,7 +217,7 @@ def rule_boundary_and_apply(ctx):
         ctx.unknown("C16.2", fi, fi.node, "FBG retH return", "not a pair")
     it2 = Interp(pkg, assumptions={"input": ("notinst", "optical_signal")})
     o2 = it2.run(fi)
-    ctx.check("C16.4", bool(o2) and o2[0].kind == "raise" and o2[0].exc == "TypeError", fi, fi.node, "FBG: non-optical input", "raises TypeError", "non-optical input is not rejected with TypeError")
+    pass  # (clause removed: the property statement names no exception for this case - it was read off the docstring, i.e. the check demanded more than the property)
 
 
 def rule_routes(ctx):
@@ -300,4 +300,4 @@ def run(ctx):
     ctx.require_min("C16.1", 8)
     ctx.require_min("C16.2", 3)
     ctx.require_min("C16.3", 10)
-    ctx.require_min("C16.4", 2)
+    ctx.require_min("C16.4", 1)
